@@ -122,5 +122,7 @@ Definition tmx_make (p : list Z) (stamp src : bytes) : res tm :=
   | 6 => tm_new (g 1%nat) (g 2%nat) stamp [] 0 0 0 0 0 0
   (* PusTm.empty(): timestamp = CdsShortTimestamp.empty().pack() *)
   | 7 => tm_new 0 0 [64; 0; 0; 0; 0; 0; 0] [] 0 0 0 0 0 0
+  (* Service17Tm(apid, subservice, timestamp) with every default *)
+  | 8 => srv17_new (g 3%nat) (g 2%nat) stamp 0 [] 0 0 0
   | _ => Err EOther
   end.
